@@ -51,6 +51,19 @@ PROPS = {
         "components_real": ["protocol::context::batcher::Batcher (crate::sync::Mutex = shuttle), tokio::sync::watch, seq_join"],
         "components_stubbed": ["batch validation closure -> harness future (logs, waits for an environment token, returns the planned verdict)"],
     },
+    "C17": {
+        "level": "fault_enumeration",
+        "rule": "run = one seeded byte string x one parser (fixed-size records single/batch with infallible and fallible element types, length-delimited, re-chunking buffer) "
+                "executed under ALL 2^(n-1) chunkings when n <= 11 (14 in the thorough tier) or 4-24 seeded chunkings otherwise, each also decorated with empty chunks and Pending, "
+                "and optionally cut by a transport error at a seeded chunk; non-trivial iff the byte string has >= 2 bytes; distinct by (parser, sizes, exhaustive flag) - "
+                "chunkings executed are reported separately in probes.chunkings_executed",
+        "scenarios": [
+            {"name": "c17_parse", "quick": 20000, "thorough": 1500000, "offset": 1, "chunk": 1000},
+        ],
+        "expected_probes": ["chunkings_executed", "pending_injected", "exhaustive_streams"],
+        "components_real": ["helpers::transport::stream::{input::{BufDeque, RecordsStream, LengthDelimitedStream}, buffered::BufferedBytesStream}"],
+        "components_stubbed": ["network body -> harness plan stream (chunks, empty chunks, Pending, injected error)"],
+    },
     "C14": {
         "level": "exploration",
         "rule": "run = seeded (message size, capacity, read size, record count, writer/receiver task layout, chunking, policy); "
@@ -74,6 +87,12 @@ NOT_APPLICABLE = {
 }
 
 MANIFEST_TEXT = {
+    "C17": {
+        "text": "Fault enumeration at the I/O seam of the real stream parsers: for short byte strings every chunking is executed (plus empty chunks and Pending between chunks), longer ones get seeded chunkings, and a transport error is injected at seeded chunk positions. Oracle: independent reference parse of the concatenated bytes - exactly the encoded records in order, clean end iff well-formed, an error (never a clean end, never a wrong record) for trailing partial data / undecodable record / transport error, never a panic. Enumeration is complete per byte string for n <= 11 (quick) / 14 (thorough); byte strings themselves are sampled.",
+        "design_ref": "DESIGN.md section 4, C17",
+        "note": "after an error only a prefix of the records is required (the code documents that items buffered in the same poll are discarded); process_stream_by_chunks/Chunk::unpack are exercised through the protocol scenarios, not here",
+        "technique": "deterministic simulation of the byte-stream seam: exhaustive chunking + injected stream faults against a reference parser",
+    },
     "C15": {
         "text": "Seeded exploration of the real seq_join / try_join / parallel_join with gate futures released by an environment task in seeded orders, pending sources, error plans and forward dependencies inside the window. Oracle: exactly-once in input order; at every poll of a joined task the number of started-unfinished tasks is >= min(window, inputs available); every dependency pattern of distance < window terminates (deadlock/step-cap = violation); the fallible variants return the first error in input order; parallel_join returns all-in-order or one of the planned errors. Sampling, not proof.",
         "design_ref": "DESIGN.md section 4, C15",
